@@ -196,6 +196,14 @@ def callWith (add : GStatus → Hdrs → Option Hdrs) {σ ι β ρ ε}
   | (s', .error status) =>
     { icpt := s', inner := i, innerSaw := none, out := rejectOutcomeWith add status }
 
+/-- `Service::poll_ready` outcomes -/
+inductive Poll (ε : Type) | ready | pending | err (e : ε)
+deriving Repr, DecidableEq
+
+/-- `InterceptedService::poll_ready` is the wrapped service's (back-pressure and readiness
+errors pass through; the interceptor is not consulted). -/
+def pollReady {ι ε} (innerReady : ι → Poll ε) (i : ι) : Poll ε := innerReady i
+
 /-- the code with `fix-C12-status-details-metadata` applied (what the harness runs against) -/
 def call {σ ι β ρ ε} (f : Icpt σ) (inner : Inner ι β ρ ε) (s : σ) (i : ι) (req : Request β) :
     CallResult σ ι β ρ ε := callWith addHeader f inner s i req
